@@ -29,7 +29,8 @@ DESCR = ("", "simple description", "with: colon, comma and  double  space", "100
 DESCR_Q = ("it's \"quoted\"", "back\\slash and \\n literal", "ends with backslash \\", "'", '"""triple""" \'\'\'', "tab\there")
 
 
-EMPTY_FUNCTION = False  # set through the entry points' keyword `empty_function`
+EMPTY_FUNCTION = False  # set through the entry points' keyword `empty_function`: lone Function terms without a formula
+INT_PARAMS = False  # keyword `int_params`: integral-valued parameters are passed as Python ints half of the time
 
 
 class _Fail(Exception):
@@ -59,24 +60,13 @@ class _Run:
         if not self.wanted(cls):
             self.skipped[cls] = self.skipped.get(cls, 0) + 1
             return
-        raise _Fail({"failed": True, "class": cls, "expected": str(expected)[:600], "observed": str(observed)[:600], "call": str(call)[:900], "cases": self.cases})
+        raise _Fail({"failed": True, "class": cls, "expected": str(expected)[:600], "observed": str(observed)[:600], "call": str(call)[:1200], "cases": self.cases})
 
     def done(self):
         r = {"failed": False, "cases": self.cases, "distinct": len(self.distinct)}
         if self.skipped:
             r["skipped"] = dict(sorted(self.skipped.items()))
         return r
-
-
-def _guard(run, where, call, fn, *a, **k):
-    """call into the library; an escaping exception is a failing case of class crash:<Type>@<where>"""
-    try:
-        return True, fn(*a, **k)
-    except _Fail:
-        raise
-    except Exception as ex:  # noqa
-        run.fail(f"crash:{type(ex).__name__}@{where}", "no exception", f"{type(ex).__name__}: {ex}", call() if callable(call) else call)
-        return False, None
 
 
 # ------------------------------------------------------------------------------------------------------------- generator
@@ -130,7 +120,8 @@ class _Num:
 
     def num(self, lo, hi):
         x = self.rng.uniform(lo, hi)
-        return round(x, self.d) + 0.0 if self.grid else x
+        x = round(x, self.d) + 0.0 if self.grid else x
+        return int(x) if INT_PARAMS and x == int(x) and self.rng.random() < 0.5 else x
 
     def positive(self, lo, hi):
         return max(self.num(lo, hi), 10.0 ** -self.d if self.grid else 1e-7)
@@ -143,6 +134,7 @@ class _Num:
             n = int(round((hi - lo) * 10 ** self.d))
             idx = self.rng.sample(range(n + 1), k) if n + 1 >= k else [self.rng.randrange(n + 1) for _ in range(k)]
             xs = [round(lo + i / 10 ** self.d, self.d) + 0.0 for i in idx]
+            xs = [int(x) if INT_PARAMS and x == int(x) and self.rng.random() < 0.5 else x for x in xs]
         else:
             xs = [lo + (hi - lo) * self.rng.random() for _ in range(k)]
         return sorted(xs) if ordered else xs
@@ -156,14 +148,14 @@ class _Num:
         return round(x, d) + 0.0
 
 
-def _make_term(fl, cat, N, cls_name, name, lo, hi, in_names, fn_vars=False):
+def _make_term(fl, cat, N, cls_name, name, lo, hi, in_names, fn_vars=False, lone=False):
     """one term of the class with well-formed, pairwise distinct parameters inside [lo, hi]"""
     rng, cls = N.rng, cat["terms"][cls_name]
     span = hi - lo
     P = lambda k, ordered=True: N.positions(k, lo, hi, ordered)  # noqa: E731
     w = lambda: N.positive(span / 10.0, span / 2.0)  # noqa: E731
-    if rng.random() < 0.04 and (cls_name != "Function" or EMPTY_FUNCTION):
-        return cls(name)  # default constructed: all-NaN parameters (a Function with an empty formula only on request)
+    if rng.random() < 0.04 and (cls_name != "Function" or (EMPTY_FUNCTION and lone)):
+        return cls(name)  # default constructed: all-NaN parameters (a Function without formula only on request: Engine() cannot hold one)
     if cls_name == "Constant":
         args = [rng.choice((N.special(), N.num(lo, hi), math.inf, -math.inf))]
     elif cls_name == "Linear":
@@ -280,7 +272,8 @@ def gen_engine(fl, rng, profile="decimals", cover=None, decimals=3, quotes=None,
         blocks.append(fl.RuleBlock(name=rng.choice(("", "rules", "rb_2", "Block")), description=descr(), enabled=rng.random() > 0.12,
                                    conjunction=fm.tnorm.constructors[conj]() if conj else None, disjunction=fm.snorm.constructors[disj]() if disj else None,
                                    implication=fm.tnorm.constructors[impl]() if impl else None, activation=None if rng.random() < 0.04 else act, rules=rules))
-    return fl.Engine(name=rng.choice(("engine", "My_Engine", "e1", "Ctl2", "_9z")), description=descr(), input_variables=inputs, output_variables=outputs, rule_blocks=blocks)
+    name = rng.choice(("My_Engine", "e1", "Ctl2", "Tipper2", "A_b_C")) if rng.random() < 0.85 else rng.choice(("engine", "_9z"))
+    return fl.Engine(name=name, description=descr(), input_variables=inputs, output_variables=outputs, rule_blocks=blocks)
 
 
 # ------------------------------------------------------------------------------------------- oracles: numbers, structure, values
@@ -375,23 +368,24 @@ def _what(path):
     return re.sub(r"\[[^\]]*\]", "", path).replace("engine.", "", 1)
 
 
+def _term_numbers(t):
+    """(kind, value) of the height and of every numeric parameter of a term (formulas and substitution variables are not numbers of FLL)"""
+    import numpy as np
+    out = [("height", t.height)]
+    for k, x in vars(t).items():
+        if k not in ("height", "name", "engine", "root", "formula", "variables"):
+            out += [("term", y) for y in np.asarray(x, dtype=float).ravel().tolist()] if isinstance(x, (list, np.ndarray)) else ([("term", x)] if _is_num(x) else [])
+    return out
+
+
 def _numbers(e):
     """(kind, value) of every numeric parameter that the FuzzyLite Language prints with `decimals` digits"""
-    import numpy as np
     out = []
     for v in list(e.input_variables) + list(e.output_variables):
-        out += [("range", v.minimum), ("range", v.maximum)]
-        if hasattr(v, "default_value"):
-            out.append(("default", v.default_value))
-        for t in v.terms:
-            out.append(("height", t.height))
-            for k, x in vars(t).items():
-                if k in ("height", "name", "engine", "root", "formula", "variables"):
-                    continue
-                out += [("term", y) for y in np.asarray(x, dtype=float).ravel().tolist()] if isinstance(x, (list, np.ndarray)) else ([("term", x)] if _is_num(x) else [])
+        out += [("range", v.minimum), ("range", v.maximum)] + ([("default", v.default_value)] if hasattr(v, "default_value") else [])
+        out += [x for t in v.terms for x in _term_numbers(t)]
     for rb in e.rule_blocks:
-        if rb.activation is not None and hasattr(rb.activation, "threshold"):
-            out.append(("threshold", rb.activation.threshold))
+        out += [("threshold", rb.activation.threshold)] if hasattr(rb.activation, "threshold") else []
         out += [("weight", r.weight) for r in rb.rules]
     return out
 
@@ -414,12 +408,12 @@ def input_rows(e, rng, n=10):
         lo = v.minimum if math.isfinite(v.minimum) else (v.maximum - 10.0 if math.isfinite(v.maximum) else -5.0)
         hi = v.maximum if math.isfinite(v.maximum) else lo + 10.0
         cols.append([lo, hi, (lo + hi) / 2.0] + [lo + (hi - lo) * rng.random() for _ in range(4)] + [math.nan, math.inf, -math.inf, lo - 1.0, hi + 0.5])
-    rows = [[c[i] for c in cols] for i in range(len(cols[0]))]
-    rows += [[rng.choice(c) for c in cols] for _ in range(3)]
-    head = rows[:3]
+    if not cols:
+        return [[]]
+    rows = [[c[i] for c in cols] for i in range(len(cols[0]))] + [[rng.choice(c) for c in cols] for _ in range(3)]
     rest = rows[3:]
     rng.shuffle(rest)
-    return (head + rest)[:n]
+    return (rows[:3] + rest)[:n]
 
 
 def outputs(e, rows):
@@ -440,20 +434,21 @@ def outputs_diff(r1, r2, rows):
     import numpy as np
     for row, a, b in zip(rows, r1, r2):
         if isinstance(a, tuple) or isinstance(b, tuple):
-            if a != b:
-                return row, a, b
+            if type(a) is not type(b) or a != b:
+                return row, a if isinstance(a, tuple) else a.tolist(), b if isinstance(b, tuple) else b.tolist()
         elif a.shape != b.shape or not np.array_equal(a, b, equal_nan=True):
             return row, a.tolist(), b.tolist()
     return None
 
 
-def _snippet(fl, e, tail):
+def _snippet(fl, e, steps):
+    """reproduction: the steps as a function of the engine first, the (shrunk) engine last because its repr may be cut off"""
     with fl.settings.context(alias="fl"):
         try:
             code = repr(e)
         except Exception as ex:  # noqa
             code = f"<repr failed: {type(ex).__name__}>"
-    return f"import fuzzylite as fl\ne = {code}\n{tail}"
+    return f"import fuzzylite as fl\ndef steps(e):\n    {steps}\nsteps({code})"
 
 
 def _shrink(e, still_fails):
@@ -488,10 +483,7 @@ def _shrink(e, still_fails):
 # ------------------------------------------------------------------------------------------------------------------ C14
 def _first_line_diff(t1, t2, sep="\n"):
     a, b = t1.split(sep), t2.split(sep)
-    for x, y in zip(a, b):
-        if x != y:
-            return f"{x.strip()!r} -> {y.strip()!r}"
-    return f"{len(a)} lines -> {len(b)} lines"
+    return next((f"{x.strip()!r} -> {y.strip()!r}" for x, y in zip(a, b) if x != y), f"{len(a)} lines -> {len(b)} lines")
 
 
 class _Judge:
@@ -509,6 +501,7 @@ class _Judge:
         return self.hit is not None
 
     def lib(self, where, fn, *a, **k):
+        """call into the library: an escaping exception is a failing case of class crash:<Type>@<where>"""
         try:
             return True, fn(*a, **k)
         except Exception as ex:  # noqa
@@ -523,82 +516,70 @@ def fll_check(fl, e, d, seed=0, opts=("  ", "\n"), wanted=None, note=None):
     with fl.settings.context(decimals=d):
         ex, im = fl.FllExporter(indent=opts[0], separator=opts[1]), fl.FllImporter(separator=opts[1])
         ok, t1 = J.lib("FllExporter.to_string", ex.to_string, e)
-        ok2, e2 = J.lib("FllImporter.from_string", im.from_string, t1) if ok else (False, None)
-        ok3, t2 = J.lib("FllExporter.to_string(imported)", ex.to_string, e2) if ok2 else (False, None)
-        if not ok3:
+        ok, e2 = J.lib("FllImporter.from_string", im.from_string, t1) if ok else (False, None)
+        ok, t2 = J.lib("FllExporter.to_string(imported)", ex.to_string, e2) if ok else (False, None)
+        if not ok:
             return J.hit
         rep = hypothesis(fl, e, d)
         if t1 != t2 and J.bad("fll-text-not-fixed-point" + ("" if rep else ":unrepresentable") + sfx, "export(import(t1)) == t1", _first_line_diff(t1, t2, opts[1])):
             return J.hit
         sd = struct_diff(fl, e, e2, d)
-        if sd and J.bad(f"fll-structure:{_what(sd[0])}" + sfx, f"{sd[0]} = {sd[1]!r}", f"{sd[2]!r} after import of {_line_of(t1, sd, opts[1])!r}"):
+        if sd and J.bad(f"fll-structure:{_what(sd[0])}" + sfx, f"{sd[0]} = {sd[1]!r}", f"{sd[2]!r} after import"):
             return J.hit
         if rep:
             rows = input_rows(e, random.Random(seed))
-            r1, r2 = outputs(copy.deepcopy(e), rows), outputs(e2, rows)
-            od = outputs_diff(r1, r2, rows)
-            if od and J.bad("fll-values" + sfx, f"outputs {od[1]} on row {od[0]} (original)", f"outputs {od[2]} (imported)"):
-                return J.hit
+            od = outputs_diff(outputs(copy.deepcopy(e), rows), outputs(e2, rows), rows)
+            if od:
+                J.bad("fll-values" + sfx, f"outputs {od[1]} on row {od[0]} (original)", f"outputs {od[2]} (imported)")
     return J.hit
-
-
-def _line_of(t1, sd, sep):
-    """the exported line most likely responsible for a structural difference (diagnostic only)"""
-    key = sd[0].rsplit(".", 1)[-1].split("[")[0]
-    key = {"lock_range": "lock-range", "lock_previous": "lock-previous", "default_value": "default", "minimum": "range", "maximum": "range"}.get(key, key)
-    hits = [ln.strip() for ln in t1.split(sep) if ln.strip().startswith(key)]
-    return hits[0] if len(hits) == 1 else ""
 
 
 def _component_objects(fl, cat, N, engine, fn_vars=False):
     """one object of every registered class x parameter variant (terms get well-formed parameters inside [0, 10])"""
     fm, rng = fl.settings.factory_manager, N.rng
     names = [v.name for v in engine.input_variables]
-    out = [("term", _make_term(fl, cat, N, c, rng.choice(TERM_NAMES), 0.0, 10.0, names, fn_vars)) for c in cat["terms"]]
+    out = [("term", _make_term(fl, cat, N, c, rng.choice(TERM_NAMES), 0.0, 10.0, names, fn_vars, True)) for c in cat["terms"]]
     out += [("tnorm", fm.tnorm.constructors[n]()) for n in cat["tnorm"] if n] + [("snorm", fm.snorm.constructors[n]()) for n in cat["snorm"] if n]
     out += [("tnorm", None), ("snorm", None), ("activation", None), ("defuzzifier", None)]
     out += [("defuzzifier", fm.defuzzifier.constructors[n]() if p is None else fm.defuzzifier.constructors[n](p)) for n, p in cat["defuzz"]]
     out += [("activation", fm.activation.constructors[n](*[N.num(0.0, 1.0) if p == "num" else p for p in a])) for n, a in cat["acts"]]
-    out += [("hedge", fm.hedge.constructors[n]()) for n in cat["hedge"]]
-    return out
+    return out + [("hedge", fm.hedge.constructors[n]()) for n in cat["hedge"]]
 
 
-def _membership(term, xs):
-    try:
-        import numpy as np
-        return np.array(term.membership(xs), dtype=float)
-    except Exception as ex:  # noqa
-        return ("raise", type(ex).__name__)
-
-
-def _same_arrays(a, b):
+def _memberships_differ(c, c2, host, attach_second=True):
+    """bit-identical membership degrees (or the same exception) of two terms attached to the host engine: None or (m1, m2)"""
     import numpy as np
-    if isinstance(a, tuple) or isinstance(b, tuple):
-        return a == b
-    return a.shape == b.shape and bool(np.array_equal(a, b, equal_nan=True))
+    res = []
+    for t in (c, c2):
+        try:
+            if t is c or attach_second:  # the FLL importer is given the engine and has to attach the term itself
+                t.update_reference(host)
+            res.append(np.array(t.membership(np.array([-1.0, 0.0, 0.5, 2.5, 3.3, 5.0, 7.75, 10.0, 11.0, math.nan, math.inf, -math.inf])), dtype=float))
+        except Exception as ex:  # noqa
+            res.append(("raise", type(ex).__name__))
+    a, b = res
+    same = (type(a) is type(b) and a == b) if isinstance(a, tuple) or isinstance(b, tuple) else (a.shape == b.shape and bool(np.array_equal(a, b, equal_nan=True)))
+    return None if same else (a, b)
 
 
-def fll_component_check(fl, kind, c, d, engine, wanted=None, note=None):
+def fll_component_check(fl, kind, c, d, host, wanted=None, note=None):
     """export -> import -> export of one component through the per-component methods of FllExporter / FllImporter"""
-    import numpy as np
     J = _Judge(wanted, note)
     cname = type(c).__name__ if c is not None else "none"
     tag = f"fll-component:{cname}"
     with fl.settings.context(decimals=d):
         ex, im = fl.FllExporter(), fl.FllImporter()
-        if kind == "hedge":
+        if kind == "hedge":  # hedges are written by name (`str`) and read back through the hedge factory
             ok, c2 = J.lib("HedgeFactory.construct", fl.settings.factory_manager.hedge.construct, str(c))
             if ok and type(c2) is not type(c):
                 J.bad(tag, cname, type(c2).__name__)
             return J.hit
         exporter = {"term": ex.term, "tnorm": ex.norm, "snorm": ex.norm, "activation": ex.activation, "defuzzifier": ex.defuzzifier}[kind]
-        importer = {"term": lambda t: im.term(t, engine), "tnorm": im.tnorm, "snorm": im.snorm, "activation": im.activation, "defuzzifier": im.defuzzifier}[kind]
+        importer = {"term": lambda t: im.term(t, host), "tnorm": im.tnorm, "snorm": im.snorm, "activation": im.activation, "defuzzifier": im.defuzzifier}[kind]
         ok, t1 = J.lib(f"FllExporter.{kind}", exporter, c)
-        ok2, c2 = J.lib(f"FllImporter.{kind}", importer, t1) if ok else (False, None)
-        ok3, t2 = J.lib(f"FllExporter.{kind}(imported)", exporter, c2) if ok2 else (False, None)
-        if not ok3:
-            return J.hit
-        if t1 != t2 and J.bad(tag + ":text", t1, t2):
+        ok, c2 = J.lib(f"FllImporter.{kind}", importer, t1) if ok else (False, None)
+        ok, t2 = J.lib(f"FllExporter.{kind}(imported)", exporter, c2) if ok else (False, None)
+        if not ok or (t1 != t2 and J.bad(tag + ":text", t1, t2)):
             return J.hit
         if c is None or c2 is None:
             if c is not c2:
@@ -607,92 +588,37 @@ def fll_component_check(fl, kind, c, d, engine, wanted=None, note=None):
         sd = _obj_diff(c, c2, d, cname)
         if sd and J.bad(tag + ":" + _what(sd[0]), f"{sd[0]} = {sd[1]!r}", f"{sd[2]!r} after import of {t1!r}"):
             return J.hit
-        if kind in ("tnorm", "snorm", "activation", "defuzzifier"):
+        if kind != "term":
             ok, c3 = J.lib("FllImporter.component", im.component, type(c), t1)
             if ok and (sd3 := _obj_diff(c, c3, d, cname)):
                 J.bad(tag + ":component()", f"{sd3[0]} = {sd3[1]!r}", repr(sd3[2]))
-        if kind == "term" and all(_representable(x, d) for k, x in _numbers_of_term(c)) and (c.height == 1.0 or abs(c.height - 1.0) > fl.settings.atol + fl.settings.rtol):
-            c.update_reference(engine)
-            xs = np.array([-1.0, 0.0, 0.5, 2.5, 3.3, 5.0, 7.75, 10.0, 11.0, math.nan, math.inf, -math.inf])
-            m1, m2 = _membership(c, xs), _membership(c2, xs)
-            if not _same_arrays(m1, m2):
-                J.bad(tag + ":values", f"membership {m1}", f"{m2} after import of {t1!r}")
+        elif all(_representable(x, d) for k, x in _term_numbers(c)) and (c.height == 1.0 or abs(c.height - 1.0) > fl.settings.atol + fl.settings.rtol):
+            md = _memberships_differ(c, c2, host, False)
+            if md:
+                J.bad(tag + ":values", f"membership {md[0]}", f"{md[1]} after import of {t1!r}")
     return J.hit
 
 
-def _numbers_of_term(t):
-    import numpy as np
-    out = [("height", t.height)]
-    for k, x in vars(t).items():
-        if k not in ("height", "name", "engine", "root", "formula", "variables"):
-            out += [("term", y) for y in np.asarray(x, dtype=float).ravel().tolist()] if isinstance(x, (list, np.ndarray)) else ([("term", x)] if _is_num(x) else [])
-    return out
-
-
+# importer-accepted texts with odd but legal formatting: sparse / missing optional lines, comments, wide gaps, integers, exponents, keys in any order,
+# empty values, non-identifier names, repeated keys, default parameters written out
 HAND_TEXTS = (
     "Engine: only a name",
     "Engine:\nInputVariable: a\nOutputVariable: o\nRuleBlock:\n",
-    """# leading comment
-
-   Engine:   spaced   name     # trailing comment
- description:   some   text : with colon
-InputVariable:   a
-     term:   lo    Triangle   0   0.5   1     # ints and sparse
-  range:  0   1
-  term: hi Ramp 0.25 1 0.5
-  enabled:   true
-OutputVariable: o
-  term: c Constant 1
-  defuzzifier:   WeightedAverage
-  term: l Linear 1 2
-  default: 0.5
-  lock-previous:  true
-  aggregation:
-RuleBlock:
-  activation:  First
-  rule:   if   a   is   very lo   then   o   is   c   with   0.5   # comment
-  rule: if a is hi then o is l
-  conjunction: none
-""",
-    """Engine: no optional lines
-InputVariable: a
-  term: t Bell
-  term: u Discrete
-  term: v Discrete 0 1 1 0 0.5
-  term: w Binary 0.5 inf
-OutputVariable: o
-  defuzzifier: Centroid 1000
-  aggregation: Maximum
-  term: t Gaussian 0.5 0.1 0.5
-OutputVariable: p
-  defuzzifier: MeanOfMaximum 10
-  range: -inf inf
-  default: nan
-  term: k Constant -inf
-RuleBlock: first
-  implication: AlgebraicProduct
-  activation: Threshold
-  rule: if (a is t or a is any) and a is not w then o is very t and p is k
-RuleBlock: second
-  enabled: false
-  activation: Highest 2
-  activation: Last 2 0.5
-""",
-    """Engine: 9 lives
-InputVariable: 1st input!
-  range: 1e-1 1E1
-  term: a-b Triangle .5 1. +2
-OutputVariable: out put
-  defuzzifier: WeightedSum Tsukamoto
-  term: r Ramp 1 0
-  term: f Function 2*_1stinput + 1
-RuleBlock:
-  activation: Proportional
-  rule: if _1stinput is ab then output is r
-""",
+    "# leading comment\n\n   Engine:   spaced   name     # trailing comment\n description:   some   text : with colon\nInputVariable:   a\n"
+    "     term:   lo    Triangle   0   0.5   1     # ints and sparse\n  range:  0   1\n  term: hi Ramp 0.25 1 0.5\n  enabled:   true\nOutputVariable: o\n"
+    "  term: c Constant 1\n  defuzzifier:   WeightedAverage\n  term: l Linear 1 2\n  default: 0.5\n  lock-previous:  true\n  aggregation:\nRuleBlock:\n"
+    "  activation:  First\n  rule:   if   a   is   very lo   then   o   is   c   with   0.5   # comment\n  rule: if a is hi then o is l\n  conjunction: none\n",
+    "Engine: no optional lines\nInputVariable: a\n  term: t Bell\n  term: u Discrete\n  term: v Discrete 0 1 1 0 0.5\n  term: w Binary 0.5 inf\nOutputVariable: o\n"
+    "  defuzzifier: Centroid 1000\n  aggregation: Maximum\n  term: t Gaussian 0.5 0.1 0.5\nOutputVariable: p\n  defuzzifier: MeanOfMaximum 10\n  range: -inf inf\n"
+    "  default: nan\n  term: k Constant -inf\nRuleBlock: first\n  implication: AlgebraicProduct\n  activation: Threshold\n"
+    "  rule: if (a is t or a is any) and a is not w then o is very t and p is k\nRuleBlock: second\n  enabled: false\n  activation: Highest 2\n  activation: Last 2 0.5\n",
+    "Engine: 9 lives\nInputVariable: 1st input!\n  range: 1e-1 1E1\n  term: a-b Triangle .5 1. +2\nOutputVariable: out put\n  defuzzifier: WeightedSum Tsukamoto\n"
+    "  term: r Ramp 1 0\n  term: f Function 2*_1stinput + 1\nRuleBlock:\n  activation: Proportional\n  rule: if _1stinput is ab then output is r\n",
 )
+# the same with numerals that the configured decimals cannot hold (more digits; heights / weights within the tolerance of 1 after rounding)
 ROUNDING_TEXTS = (
-    "Engine: e\nInputVariable: a\n  range: 0.12345 1.000000001\n  term: t Triangle 0.0004 0.0005 0.0015 0.99949\nOutputVariable: o\n  default: 0.3333333333\n  term: c Constant 0.123456789\nRuleBlock:\n  activation: First 1 0.12345\n  rule: if a is t then o is c with 0.4995\n",
+    "Engine: e\nInputVariable: a\n  range: 0.12345 1.000000001\n  term: t Triangle 0.0004 0.0005 0.0015 0.99949\nOutputVariable: o\n  default: 0.3333333333\n"
+    "  term: c Constant 0.123456789\nRuleBlock:\n  activation: First 1 0.12345\n  rule: if a is t then o is c with 0.4995\n",
     "Engine: e\nInputVariable: a\n  term: t Triangle 0 1 2 1.0014\n",
     "Engine: e\nInputVariable: a\n  term: t Triangle 0 1 2 0.9986\n",
     "Engine: e\nInputVariable: a\n  term: t Ramp 0 1\nOutputVariable: o\n  term: c Constant 1\nRuleBlock:\n  rule: if a is t then o is c with 1.0014\n",
@@ -708,12 +634,8 @@ def _noise(text, rng):
             continue
         if line.strip() and key != "description" and " Function " not in line and rng.random() < 0.5:
             line = "".join(w + " " * rng.randint(1, 3) for w in line.split())
-        line = " " * rng.randrange(6) + line.strip()
-        if rng.random() < 0.15:
-            line += "   # note: " + rng.choice(("x", "rule: if a is b", "term: t Triangle"))
-        out.append(line)
-        if rng.random() < 0.1:
-            out.append(rng.choice(("", "   ", "# a comment line", "  # term: zz Triangle 0 1 2")))
+        line = " " * rng.randrange(6) + line.strip() + ("   # note: " + rng.choice(("x", "rule: if a is b", "term: t Triangle")) if rng.random() < 0.15 else "")
+        out += [line] + ([rng.choice(("", "   ", "# a comment line", "  # term: zz Triangle 0 1 2"))] if rng.random() < 0.1 else [])
     return "\n".join(out)
 
 
@@ -726,46 +648,50 @@ def normalise_check(fl, text, d, wanted=None, note=None):
         except Exception:  # noqa: the importer does not accept the text: nothing is claimed
             return False, None
         ok, n1 = J.lib("FllExporter.to_string", fl.FllExporter().to_string, e1)
-        ok2, e2 = J.lib("FllImporter.from_string(normalised)", fl.FllImporter().from_string, n1) if ok else (False, None)
-        ok3, n2 = J.lib("FllExporter.to_string", fl.FllExporter().to_string, e2) if ok2 else (False, None)
-        if ok3 and n1 != n2:
+        ok, e2 = J.lib("FllImporter.from_string(normalised)", fl.FllImporter().from_string, n1) if ok else (False, None)
+        ok, n2 = J.lib("FllExporter.to_string", fl.FllExporter().to_string, e2) if ok else (False, None)
+        if ok and n1 != n2:
             J.bad("fll-normalise-not-idempotent" + ("" if hypothesis(fl, e1, d) else ":rounding"), "export(import(n1)) == n1", _first_line_diff(n1, n2))
     return True, J.hit
 
 
-def _restore(fl, saved):
-    for k, v in saved.items():
-        setattr(fl.settings, k, v)
+def _entry(fl, body, seed, skip_classes, only_class, kw):
+    """common frame of the entry points: bookkeeping, decks, a two-input host engine for lone terms; restores the settings"""
+    global EMPTY_FUNCTION, INT_PARAMS
+    run, saved, rng = _Run(skip_classes, only_class), dict(vars(fl.settings)), random.Random(seed)
+    try:
+        EMPTY_FUNCTION, INT_PARAMS = bool(kw.get("empty_function", False)), bool(kw.get("int_params", False))
+        host = fl.Engine(name="host", input_variables=[fl.InputVariable(name="a", minimum=0.0, maximum=10.0), fl.InputVariable(name="b", minimum=0.0, maximum=10.0)])
+        host.input_values = fl.scalar([[2.5, 7.25]])
+        extra = body(run, rng, lambda c: run.skipped.__setitem__(c, run.skipped.get(c, 0) + 1), _Cover(rng), _catalog(fl), host) or {}
+        return {**run.done(), **extra}
+    except _Fail as f:
+        return {**f.result, "cases": run.cases, **({"skipped": dict(run.skipped)} if run.skipped else {})}
+    finally:
+        EMPTY_FUNCTION = INT_PARAMS = False
+        for k, v in saved.items():
+            setattr(fl.settings, k, v)
 
 
 def replay_fll_roundtrip(fl, FA, vals=None, seed=0, budget=200, skip_classes=(), only_class=None, disabled_rules=False, shrink=True, **kw):
-    """C14.  budget = number of generated engines (each run at its own grid decimals and at one other decimals setting)."""
-    global EMPTY_FUNCTION
-    run = _Run(skip_classes, only_class)
-    saved = dict(vars(fl.settings))
-    rng = random.Random(seed)
-    note = lambda c: run.skipped.__setitem__(c, run.skipped.get(c, 0) + 1)  # noqa: E731
-    try:
-        EMPTY_FUNCTION = bool(kw.get("empty_function", False))
-        cover, cat = _Cover(rng), _catalog(fl)
-        # (1) per-component pairs: every registered class x parameter variant x decimals 1..9
-        host = fl.Engine(name="host", input_variables=[fl.InputVariable(name="a", minimum=0.0, maximum=10.0), fl.InputVariable(name="b", minimum=0.0, maximum=10.0)])
-        host.input_values = fl.scalar([[2.5, 7.25]])
-        for rep in range(max(1, budget // 100)):
+    """C14.  `budget` generated engines (each at its own grid decimals d = 1..9 and at one other decimals setting; every 10th engine has
+    arbitrary doubles; every 3rd uses non-default exporter indent / separator), every registered component class x parameter variant x
+    decimals 1..9 on its own, and the normalisation of the shipped examples (verbatim and reformatted) and of hand-written texts.
+    Keywords: disabled_rules (Rule.enabled=False has no FLL syntax: off by default), empty_function (Function('f') with no formula), shrink."""
+    def body(run, rng, note, cover, cat, host):
+        for rep in range(max(1, budget // 100)):  # (1) per-component pairs
             for d in range(1, 10):
                 for kind, c in _component_objects(fl, cat, _Num(rng, "decimals" if (d + rep) % 3 else "doubles", d), host):
                     run.cases += 1
                     hit = fll_component_check(fl, kind, c, d, host, run.wanted, note)
                     if hit:
                         with fl.settings.context(alias="fl"):
-                            run.fail(hit[0], hit[1], hit[2], f"import fuzzylite as fl\nc = {c!r}\nwith fl.settings.context(decimals={d}): "
+                            run.fail(*hit, f"import fuzzylite as fl\nc = {c!r}\nwith fl.settings.context(decimals={d}): "
                                      f"x = fl.FllExporter().{'norm' if 'norm' in kind else kind}(c); c2 = fl.FllImporter().{kind}(x)")
-        # (2) engines
-        for i in range(budget):
+        for i in range(budget):  # (2) engines
             d = 1 + i % 9
-            profile = "doubles" if i % 10 == 9 else "decimals"
             with fl.settings.context(decimals=d):
-                e = gen_engine(fl, rng, profile, cover, decimals=d, disabled_rules=disabled_rules, quotes=False, fn_vars=False)
+                e = gen_engine(fl, rng, "doubles" if i % 10 == 9 else "decimals", cover, decimals=d, disabled_rules=disabled_rules, quotes=False, fn_vars=False)
             run.distinct.add(fl.FllExporter().to_string(e))
             opts = (("  ", "\n"), ("", "\n"), ("\t", "\n"), ("  ", ";"), ("    ", "\n\n"))[i % 5 if i % 3 == 0 else 0]
             if opts[1] != "\n" and any(opts[1].strip() in x.description for x in [e] + e.variables + e.rule_blocks):
@@ -776,14 +702,11 @@ def replay_fll_roundtrip(fl, FA, vals=None, seed=0, budget=200, skip_classes=(),
                 if hit:
                     small = _shrink(e, lambda c: (fll_check(fl, c, dd, seed + i, opts) or (None,))[0] == hit[0]) if shrink else e
                     hit = fll_check(fl, small, dd, seed + i, opts, lambda c: c == hit[0]) or hit
-                    exp_args = "" if opts == ("  ", "\n") else f"indent={opts[0]!r}, separator={opts[1]!r}"
-                    imp_args = "" if opts[1] == "\n" else f"separator={opts[1]!r}"
-                    run.fail(hit[0], hit[1], hit[2], _snippet(fl, small, f"with fl.settings.context(decimals={dd}):\n    t1 = fl.FllExporter({exp_args}).to_string(e); "
-                             f"e2 = fl.FllImporter({imp_args}).from_string(t1); t2 = fl.FllExporter({exp_args}).to_string(e2)  # engine #{i} of seed {seed}"))
-        # (3) normalisation of accepted texts: shipped examples (verbatim and reformatted) and hand-written texts
-        root = os.path.join(os.path.dirname(os.path.abspath(fl.__file__)), "examples")
-        files = sorted(glob.glob(os.path.join(root, "**", "*.fll"), recursive=True))
-        texts = [(os.path.relpath(f, root), open(f, encoding="utf-8").read()) for f in files]
+                    xa = "" if opts == ("  ", "\n") else f"indent={opts[0]!r}, separator={opts[1]!r}"
+                    run.fail(*hit, _snippet(fl, small, f"with fl.settings.context(decimals={dd}):\n        t1 = fl.FllExporter({xa}).to_string(e); e2 = fl.FllImporter("
+                             + ("" if opts[1] == "\n" else f"separator={opts[1]!r}") + f").from_string(t1); t2 = fl.FllExporter({xa}).to_string(e2)  # engine #{i} of seed {seed}"))
+        root = os.path.join(os.path.dirname(os.path.abspath(fl.__file__)), "examples")  # (3) normalisation of accepted texts
+        texts = [(os.path.relpath(f, root), open(f, encoding="utf-8").read()) for f in sorted(glob.glob(os.path.join(root, "**", "*.fll"), recursive=True))]
         jobs = [(n, t, 3) for n, t in texts] + [(f"HAND_TEXTS[{j}]", t, dd) for j, t in enumerate(HAND_TEXTS) for dd in (3, 1, 6)]
         jobs += [(f"ROUNDING_TEXTS[{j}]", t, dd) for j, t in enumerate(ROUNDING_TEXTS) for dd in (3, 2, 5)]
         for k in range(max(1, budget // 4)):
@@ -795,16 +718,174 @@ def replay_fll_roundtrip(fl, FA, vals=None, seed=0, budget=200, skip_classes=(),
             acc, hit = normalise_check(fl, t, dd, run.wanted, note)
             accepted += acc
             if hit:
-                run.fail(hit[0], hit[1], hit[2], f"text = {n} ; with fl.settings.context(decimals={dd}): n1 = fl.FllExporter().to_string(fl.FllImporter().from_string(text)); "
+                run.fail(*hit, f"text = {n} ; with fl.settings.context(decimals={dd}): n1 = fl.FllExporter().to_string(fl.FllImporter().from_string(text)); "
                          f"n2 = fl.FllExporter().to_string(fl.FllImporter().from_string(n1))" + (f"\ntext = {t!r}" if len(t) < 500 else ""))
-        res = run.done()
-        res["accepted_texts"] = accepted
-        return res
-    except _Fail as f:
-        f.result["cases"] = run.cases
-        if run.skipped:
-            f.result["skipped"] = dict(run.skipped)
-        return f.result
-    finally:
-        EMPTY_FUNCTION = False
-        _restore(fl, saved)
+        return {"accepted_texts": accepted, "texts": len(jobs)}
+    return _entry(fl, body, seed, skip_classes, only_class, kw)
+
+
+# ------------------------------------------------------------------------------------------------------------------ C15
+def _rebuild(fl, code, encapsulated):
+    """fresh namespace: the library's import statement, then the exported code; returns the object the code builds"""
+    import re
+    ns = {}
+    exec(fl.representation.import_statement(), ns)
+    if not encapsulated:
+        return eval(code, ns)
+    exec(code, ns)
+    m = re.search(r"^class\s+(\w+)", code, re.M)  # engines: `class <PascalCase(name)>` with `.engine`; other objects: `def create()`
+    return ns[m.group(1)]().engine if m else ns["create"]()
+
+
+def _str_diff(a, b):
+    i = next((k for k, (x, y) in enumerate(zip(a, b)) if x != y), min(len(a), len(b)))
+    return f"...{a[max(0, i - 60):i + 60]}...", f"...{b[max(0, i - 60):i + 60]}..."
+
+
+def _fll_at(fl, x, d):
+    with fl.settings.context(decimals=d):
+        return fl.FllExporter().to_string(x)
+
+
+def _code_of(fl, c, form, method="to_string"):
+    """the Python code under judgement: `repr(c)` or PythonExporter(formatted, encapsulated).<method>(c)"""
+    return repr(c) if form == "repr" else getattr(fl.PythonExporter(formatted=form[0], encapsulated=form[1]), method)(c)
+
+
+def _how(form, x):
+    code = f"code = repr({x})" if form == "repr" else f"code = fl.PythonExporter(formatted={form[0]}, encapsulated={form[1]}).to_string({x})"
+    run = f"{x}2 = eval(code, ns)" if form == "repr" or not form[1] else "exec(code, ns)  # then ns[<Class>]().engine / ns['create']()"
+    return f"{code}; ns = {{}}; exec(fl.representation.import_statement(), ns); {run}"
+
+
+def py_check(fl, e, alias, form, d=3, ref=None, rows=None, wanted=None, note=None):
+    """every C15 clause for one engine, one alias and one form (`"repr"` or `(formatted, encapsulated)`): None or (class, expected, observed)"""
+    import re
+    J = _Judge(wanted, note)
+    with fl.settings.context(alias=alias, decimals=d):
+        ok, r0 = J.lib("repr", repr, e)
+        ok1, f0 = J.lib("FllExporter.to_string", _fll_at, fl, e, d)
+        if not (ok and ok1):
+            return J.hit
+        code = ""
+        try:
+            if form != "repr" and form[0]:  # the formatter needs valid Python: judge the unformatted code first
+                code = _code_of(fl, e, (False, form[1]))
+                compile(code, "<exported>", "exec" if form[1] else "eval")
+            ok, code = J.lib("PythonExporter.to_string", _code_of, fl, e, form)
+            if not ok:
+                return J.hit
+            e2 = _rebuild(fl, code, form != "repr" and form[1])
+        except Exception as ex:  # noqa
+            m = re.search(r"^class (.*):$", code, re.M)
+            sub = ""
+            if m and isinstance(ex, SyntaxError) and not m.group(1).isidentifier():
+                sub = ":class-name"  # `class <PascalCase(engine.name)>:` is not valid Python
+            elif m and alias == "*" and hasattr(fl, m.group(1)):
+                sub = ":class-shadows"  # the generated class takes the name of a library class imported by `from fuzzylite import *`
+            J.bad(f"py-exec-error:{type(ex).__name__}{sub}", "the import statement followed by the exported code builds the engine", f"{type(ex).__name__}: {ex}" + (f" in {m.group(0)!r}" if sub else ""))
+            return J.hit
+        ok, r2 = J.lib("repr(rebuilt)", repr, e2)
+        if ok and r2 != r0 and J.bad("py-repr", *_str_diff(r0, r2)):
+            return J.hit
+        for dd in (d, 9):
+            ok, f2 = J.lib("FllExporter.to_string(rebuilt)", _fll_at, fl, e2, dd)
+            if ok and f2 != _fll_at(fl, e, dd) and J.bad("py-fll", f"same FuzzyLite Language text at decimals={dd}", _first_line_diff(_fll_at(fl, e, dd), f2)):
+                return J.hit
+        if ok and rows is not None and hypothesis(fl, e, d, weights_only=True):
+            od = outputs_diff(ref, outputs(e2, rows), rows)
+            if od:
+                J.bad("py-values", f"outputs {od[1]} on row {od[0]} (original)", f"outputs {od[2]} (rebuilt)")
+    return J.hit
+
+
+_PY_METHOD = {"term": "term", "tnorm": "norm", "snorm": "norm", "activation": "activation", "defuzzifier": "defuzzifier", "rule": "rule", "rule_block": "rule_block",
+              "input_variable": "input_variable", "output_variable": "output_variable"}
+
+
+def py_component_check(fl, kind, c, alias, form, host, wanted=None, note=None):
+    """the repr / PythonExporter code of one component rebuilds a component with the same repr, the same FLL text and (terms) the same membership"""
+    J = _Judge(wanted, note)
+    tag = f"py-component:{type(c).__name__ if c is not None else 'none'}"
+    with fl.settings.context(alias=alias):
+        ok, r0 = J.lib("repr", repr, c)
+        ok, code = J.lib("PythonExporter", _code_of, fl, c, form, _PY_METHOD.get(kind, "to_string") if form != "repr" and not form[1] else "to_string") if ok else (False, None)
+        if not ok:
+            return J.hit
+        try:
+            c2 = _rebuild(fl, code, form != "repr" and form[1])
+        except Exception as ex:  # noqa
+            J.bad(tag, f"the import statement followed by {code!r} builds the component", f"{type(ex).__name__}: {ex}")
+            return J.hit
+        ok, r2 = J.lib("repr(rebuilt)", repr, c2)
+        if not ok or (r2 != r0 and J.bad(tag, *_str_diff(r0, r2))):
+            return J.hit
+        if c is not None and kind not in ("hedge", "other"):
+            ok, f2 = J.lib("FllExporter.to_string(rebuilt)", _fll_at, fl, c2, 9)
+            if not ok or (f2 != _fll_at(fl, c, 9) and J.bad(tag, _fll_at(fl, c, 9), f2)):
+                return J.hit
+        if kind == "term":
+            md = _memberships_differ(c, c2, host)
+            if md:
+                J.bad(tag, f"membership {md[0]}", f"{md[1]} from {code!r}")
+    return J.hit
+
+
+def _have_black():
+    try:
+        import black  # noqa: F401
+        return True
+    except Exception:  # noqa
+        return False
+
+
+def replay_python_roundtrip(fl, FA, vals=None, seed=0, budget=200, skip_classes=(), only_class=None, disabled_rules=False, shrink=True, **kw):
+    """C15.  budget // 5 generated engines (arbitrary doubles, weights on the grid of decimals 3 / 1 / 6, quotes and backslashes in descriptions,
+    every 4th engine taken from the FLL importer so that its parameters are numpy scalars) x 4 aliases x {repr, encapsulated class}, plus
+    PythonExporter(formatted=False) and both black-formatted forms under one alias each (skipped, and reported as "black": False, when black is
+    not importable); every component class x parameter variant, Activated / Aggregated / Antecedent / Consequent, the variables, rule blocks and
+    rules of a generated engine x 4 aliases x {repr, create()} (+ per-kind exporter method and formatted forms under one alias)."""
+    black = _have_black()
+
+    def body(run, rng, note, cover, cat, host):
+        for rep in range(max(1, budget // 100)):  # (1) components on their own
+            N = _Num(rng, "doubles", 3)
+            tri = fl.Triangle("t", 0.1 + 0.2, 1.0 / 3.0, 2.0 / 3.0, 0.75)
+            comps = _component_objects(fl, cat, N, host, fn_vars=True)
+            comps += [("term", fl.Activated(tri, N.num(0.0, 1.0), fl.Minimum())), ("term", fl.Activated(tri, 1.0, None)), ("other", fl.Antecedent("a is very t")),
+                      ("term", fl.Aggregated("agg", -math.inf, N.special(), fl.Maximum(), [fl.Activated(tri, N.num(0.0, 1.0), fl.AlgebraicProduct())])),
+                      ("other", fl.Consequent("o is t and p is not t"))]
+            e = gen_engine(fl, rng, "doubles", cover, disabled_rules=disabled_rules)
+            comps += [("input_variable", v) for v in e.input_variables] + [("output_variable", v) for v in e.output_variables]
+            comps += [("rule_block", rb) for rb in e.rule_blocks] + [("rule", r) for rb in e.rule_blocks for r in rb.rules]
+            for k, (kind, c) in enumerate(comps):
+                forms = [(a, f) for a in ALIASES for f in (("repr", (False, True)) if c is not None else ("repr",))] + [(ALIASES[k % 4], (False, False))]
+                forms += [(ALIASES[k % 4], (True, False)), (ALIASES[(k + 1) % 4], (True, True))] if black and c is not None else []
+                for alias, form in forms:
+                    run.cases += 1
+                    hit = py_component_check(fl, kind, c, alias, form, e if "variable" in kind else host, run.wanted, note)
+                    if hit:
+                        with fl.settings.context(alias="fl"):
+                            run.fail(*hit, f"import fuzzylite as fl\nc = {c!r}\nwith fl.settings.context(alias={alias!r}):\n    {_how(form, 'c')}")
+        for i in range(max(2, budget // 5)):  # (2) engines
+            d = (3, 3, 1, 3, 6)[i % 5]
+            with fl.settings.context(decimals=d):
+                e = gen_engine(fl, rng, "doubles", cover, decimals=d, disabled_rules=disabled_rules)
+                if i % 4 == 3:
+                    e = fl.FllImporter().from_string(fl.FllExporter().to_string(gen_engine(fl, rng, "decimals", cover, decimals=d, quotes=True)))
+            run.distinct.add(_fll_at(fl, e, 9))
+            rows = input_rows(e, random.Random(seed + i), n=8)
+            ref = outputs(copy.deepcopy(e), rows)
+            forms = [(a, f) for a in ALIASES for f in ("repr", (False, True))] + [(ALIASES[i % 4], (False, False))]
+            forms += [(ALIASES[i % 4], (True, False)), (ALIASES[(i + 1) % 4], (True, True))] if black else []
+            for alias, form in forms:
+                run.cases += 1
+                hit = py_check(fl, e, alias, form, d, ref, rows, run.wanted, note)
+                if hit:
+                    def same(c, only=None):
+                        return py_check(fl, c, alias, form, d, outputs(copy.deepcopy(c), rows), rows, only)
+                    small = _shrink(e, lambda c: (same(c) or (None,))[0] == hit[0]) if shrink else e
+                    hit = same(small, lambda c: c == hit[0]) or hit
+                    run.fail(*hit, _snippet(fl, small, f"with fl.settings.context(alias={alias!r}, decimals={d}):\n        {_how(form, 'e')}  # engine #{i} of seed {seed}"))
+        return {"black": black}
+    return _entry(fl, body, seed, skip_classes, only_class, kw)
